@@ -23,9 +23,11 @@ theorem regularB_spec (h : NNet) (c : Nat) (m : NNet) (hr : regularB h c m = tru
       have := List.all_eq_true.mp h2 p hp
       simpa [hsome] using this
 
-/-- in the regular case nothing is removed: the result is the circuit `substituteCore` builds -/
-theorem substitute_regular_eq (h : NNet) (c : Nat) (m h' : NNet) (hr : regularB h c m = true) (he : substitute h c m = some h') :
-    ∃ sh dn map, implShape m = some sh ∧ sh.des = some dn ∧ substituteCore h c m = some (h', map, []) ∧
+/-- in the regular case nothing is removed: the result is the circuit `substituteCore` builds, with the outputs of the
+    copied forks made dense -/
+theorem substitute_regular_eq' (h : NNet) (c : Nat) (m h' : NNet) (hr : regularB h c m = true) (he : substitute h c m = some h') :
+    ∃ sh dn map h5, implShape m = some sh ∧ sh.des = some dn ∧ substituteCore h c m = some (h5, map, []) ∧
+      h' = { h5 with net := densify h5.net map } ∧
       NoIgnored m (sh.inPorts.zip (padTo (h.net.node c).ins sh.inPorts.length)) := by
   obtain ⟨sh, dn, hs, hd, hni, hlen, hall⟩ := regularB_spec h c m hr
   unfold substitute at he
@@ -36,7 +38,19 @@ theorem substitute_regular_eq (h : NNet) (c : Nat) (m h' : NNet) (hr : regularB 
     subst hnil
     simp only [removeDangling, List.length_nil, Nat.zero_add] at he
     cases he
-    exact ⟨sh, dn, map, hs, hd, hcore, hni⟩
+    exact ⟨sh, dn, map, h5, hs, hd, hcore, rfl, hni⟩
+
+/-- ... and when no copied fork has a gap (`denseB`) it is exactly that circuit -/
+theorem substitute_regular_eq (h : NNet) (c : Nat) (m h' : NNet) (hr : regularB h c m = true) (hdn : denseB h c m = true)
+    (he : substitute h c m = some h') :
+    ∃ sh dn map, implShape m = some sh ∧ sh.des = some dn ∧ substituteCore h c m = some (h', map, []) ∧
+      NoIgnored m (sh.inPorts.zip (padTo (h.net.node c).ins sh.inPorts.length)) := by
+  obtain ⟨sh, dn, map, h5, hs, hd, hcore, e, hni⟩ := substitute_regular_eq' h c m h' hr he
+  unfold denseB at hdn
+  simp only [hcore, Bool.not_eq_true'] at hdn
+  rw [densify_of_dense h5.net map hdn] at e
+  subst e
+  exact ⟨sh, dn, map, hs, hd, hcore, hni⟩
 
 theorem addedKN_noSeq (m : NNet) (hn : String) (dn : Nat)
     (hone : ∀ j, j < m.net.nodes.size → j ≠ dn → isSeqKind (m.net.node j).kind = false) :
